@@ -206,6 +206,8 @@ def c13_request(rng, pw):
     if r < 0.3:
         return ("SELECT", [rng.choice([b"0", b"1", b"2", b"7", b"15", b"-1", b"abc", b"", b"9223372036854775807", b"+3", b"007"])])
     if r < 0.45 and pw is not None:
+        if rng.random() < 0.3:      # the two-argument form: its user name must stay with the connection that sent it
+            return ("AUTH", rng.choice([[b"alice", b"wrong"], [b"alice", pw], [b"", pw], [b"default", pw], [b"bob", b""]]))
         return ("AUTH", [rng.choice([pw, pw, b"wrong", pw[:-1], b""])])
     if r < 0.75:
         return ("SET", [rng.choice([b"a", b"b", b"c", b"d"]), rng.choice([b"1", b"2", b"xyz"])])
@@ -275,6 +277,12 @@ def run_c13(tier, seed):
             base1 = [("GET", [b"a"]), ("AUTH", [b"wrong"]), ("SELECT", [b"5"])]
         for order in interleavings([3, 3]):
             add(pw, [base0, base1], order, False, desc="[systematic] ")
+        if pw:
+            # a user name presented on one connection (refused there) must not colour the other connection's AUTH <password>
+            u0 = [("AUTH", [b"alice", b"wrong"]), ("GET", [b"a"]), ("AUTH", [b"alice", pw])]
+            u1 = [("AUTH", [pw]), ("SELECT", [b"2"]), ("SET", [b"b", b"2"])]
+            for order in interleavings([3, 3]):
+                add(pw, [u0, u1], order, False, desc="[systematic user] ")
     # sequential reuse: a connection ends, the next one starts afterwards and must see the defaults (db 0, no user data)
     for _ in range(60 if tier == "quick" else 600):
         pw = rng.choice([None, None, b"secret"])
